@@ -421,7 +421,77 @@ def shadowing(x: fp.Real, gain: fp.Real) -> fp.Real:
         return boosted(x) + gain
 
 
+
+# ---- results the caller is free to scribble on: whatever comes back belongs to the caller alone ----
+
+LITTAB = [fp.FP64.round(3), fp.FP64.round(5), fp.FP64.round(9)]     # a Python-owned list no FPy code writes
+
+
+@fp.fpy
+def ret_literal(x: fp.Real) -> list[fp.Real]:
+    ys = [1.5, 2.5, 3.5]
+    return ys
+
+
+@fp.fpy
+def ret_nested_literal(x: fp.Real) -> list[list[fp.Real]]:
+    rows = [[1.0, 2.0], [3.0, x]]
+    return rows
+
+
+@fp.fpy
+def ret_table(x: fp.Real) -> tuple[list[fp.Real], fp.Real]:
+    return (LITTAB, LITTAB[0] + x)
+
+
+@fp.fpy
+def make_row(x: fp.Real) -> list[fp.Real]:
+    return [x, x + 1]
+
+
+@fp.fpy
+def ret_callee(x: fp.Real) -> tuple[list[fp.Real], fp.Real]:
+    r = make_row(x)
+    return (r, r[0])
+
+
+@fp.fpy
+def whole_slice(xs: list[fp.Real]) -> list[fp.Real]:
+    return xs[:]
+
+
+@fp.fpy
+def ret_inner(xss: list[list[fp.Real]]) -> list[fp.Real]:
+    return xss[0]
+
+
+@fp.fpy
+def ret_both(xs: list[fp.Real], ys: list[fp.Real]) -> tuple[list[fp.Real], list[fp.Real]]:
+    return (ys, xs)
+
+
+@fp.fpy
+def ret_readonly(xs: list[fp.Real]) -> list[fp.Real]:
+    # never writes its parameter
+    s = xs[0] + 1
+    return xs
+
+
+@fp.fpy
+def ret_comp(xs: list[fp.Real]) -> list[list[fp.Real]]:
+    return [[x, x * 2] for x in xs]
+
+
 SIG = {
+    'ret_literal': ['num'],
+    'ret_nested_literal': ['num'],
+    'ret_table': ['num'],
+    'ret_callee': ['num'],
+    'whole_slice': ['list1+'],
+    'ret_inner': ['list2d'],
+    'ret_both': ['list1+', 'list1+'],
+    'ret_readonly': ['list1+'],
+    'ret_comp': ['list1+'],
     'use_table': ['num'],
     'use_pass_list': ['list2+'],
     'pinned32': ['num'],
@@ -480,10 +550,15 @@ BARE = ['helper_noctx', 'extremes', 'tenth', 'boosted', 'calls', 'early', 'neste
 FAIL_BELOW = ['calls_failing', 'via_picky']
 
 # the special cases the workload was written for, rotated through by the 'focus' run shape
+RETURNS_LISTS = ['ret_literal', 'ret_nested_literal', 'ret_table', 'ret_callee', 'whole_slice', 'ret_inner', 'ret_both',
+                 'ret_readonly', 'ret_comp', 'ret_param', 'ret_pair', 'ident_pair', 'slices', 'nested_lists']
+
 SPECIAL = ['pinned32', 'narrow', 'extremes', 'tenth', 'use_table', 'uses_closure', 'deep', 'ret_param', 'via_prim', 'calls_failing',
            'calls', 'pinned_rtz16', 'narrow_neg', 'tenth16', 'use_pass_list', 'shadowing', 'ident_pair', 'ret_pair',
            'via_picky', 'asserting', 'cap_num', 'calls_pinned', 'narrow_all', 'tenth32', 'mut_list', 'nested_lists',
-           'share_call', 'indexer', 'exact_or_fail', 'trans', 'directed', 'ident', 'slices']
+           'share_call', 'indexer', 'exact_or_fail', 'trans', 'directed', 'ident', 'slices',
+           'ret_literal', 'ret_table', 'ret_callee', 'whole_slice', 'ret_inner', 'ret_both', 'ret_readonly', 'ret_nested_literal',
+           'ret_comp']
 
 # functions that raise for some of their catalogue arguments (the program fails mid-evaluation)
 FAILING = ['asserting', 'indexer', 'exact_or_fail', 'calls_failing', 'via_picky']
